@@ -738,6 +738,8 @@ func runC05(c *core.Ctx) {
 	ruleStatedSubscribers(c, "C05.stated-events")
 	ruleStatedAccessors(c, "C05.stated-events")
 	ruleValidatorDecodesDeclared(c, "C05.stated-events")
+	c.Doc("C05.references", "a generated stub answering with an object reference takes service id and object id from the object it designates", 1)
+	ruleReferenceOfReturnedObject(c, "C05.references")
 }
 
 func stripFn(ts []etok) []etok {
